@@ -255,7 +255,38 @@ func runC08(c *Ctx) {
 	c.R.Rule("float-guard", "MarshalFloatContext formats the float only on the edge where math.IsInf and math.IsNaN are both false, and the other edge returns an error; no other runtime function hands a float to the unguarded legacy formatter MarshalFloat (or to strconv.FormatFloat inside a Marshal* function) without that test", 1)
 	if fn := c.fn(pkgGraphql, "MarshalFloatContext"); fn != nil {
 		done := false
-		for _, cl := range an.WithClosures(fn) {
+		// the marshaler's body: the function literals of MarshalFloatContext, or a method of the package it returns as a method value
+		// (`ContextWriterFunc(floatWriter(f).writeContext)`: a bound-method wrapper that calls the method)
+		bodies := an.WithClosures(fn)
+		seenBody := map[*ssa.Function]bool{}
+		for _, b := range bodies {
+			seenBody[b] = true
+		}
+		for i := 0; i < len(bodies) && i < 16; i++ {
+			for _, blk := range bodies[i].Blocks {
+				for _, in := range blk.Instrs {
+					var callee *ssa.Function
+					switch x := in.(type) {
+					case *ssa.MakeClosure:
+						callee, _ = x.Fn.(*ssa.Function)
+					case ssa.CallInstruction:
+						callee = x.Common().StaticCallee()
+					}
+					if callee == nil || seenBody[callee] || len(callee.Blocks) == 0 {
+						continue
+					}
+					if p := pipelineFuncPkg(callee); p != pkgGraphql && p != "" {
+						continue
+					}
+					if callee.Synthetic == "" && callee.Signature.Recv() == nil && callee.Parent() == nil {
+						continue // an ordinary package function: not part of this marshaler's body
+					}
+					seenBody[callee] = true
+					bodies = append(bodies, callee)
+				}
+			}
+		}
+		for _, cl := range bodies {
 			for _, call := range an.CallsIn(cl, func(_ ssa.CallInstruction, ci an.CalleeInfo) bool {
 				return strings.HasPrefix(ci.FullName(), "fmt.Fprint")
 			}) {
@@ -536,4 +567,12 @@ func isStringy(t types.Type) bool {
 		return ok && b.Kind() == types.Byte
 	}
 	return false
+}
+
+// pipelineFuncPkg: the package path of a function ("" for synthetic wrappers without a package).
+func pipelineFuncPkg(f *ssa.Function) string {
+	if f.Pkg != nil {
+		return f.Pkg.Pkg.Path()
+	}
+	return ""
 }
